@@ -11,7 +11,7 @@ CFG = dict(
         "subtract_neg_iff", "translate_spec", "translate_moves", "union_neg_iff", "union_none_iff", "intersect_neg_iff",
         "lipschitz_min", "lipschitz_max", "subtract_lipschitz", "translate_lipschitz", "union_lipschitz", "intersect_lipschitz",
         # box / rounded box
-        "box_eq", "box_neg_iff", "box_neg_iff'", "box_zero_iff", "box_lipschitz", "box_exact_le",
+        "box_eq", "box_neg_iff", "box_neg_iff'", "box_zero_iff", "box_lipschitz", "box_exact_le", "box_exact_attained_outside", "box_exact_attained_inside", "box_exact_attained",
         "roundedBox_eq", "roundedBox_neg_iff", "roundedBox_lipschitz",
         # capsule
         "closestPoint_eq", "closestPoint_minimises", "line_eq", "line_neg_iff", "line_zero_iff", "line_lipschitz", "line_exact_le",
@@ -24,7 +24,7 @@ CFG = dict(
                         "reference distance functions inside the driver (Driver/C19.lean) used by the oracle lines"],
     residue=[
         "RoundedCone: translated and corresponded bit-for-bit, but its sign characterisation and 1-Lipschitz bound are NOT theorems; decided per run by the oracles c19.holds.rcone_sign / rcone_outside_exact / lipschitz on adversarial samples (beyond the caps, on the axis) against a union-of-spheres reference",
-        "exact distance 'attained' direction (some surface point at distance |f p|) is proved for sphere and plane only; for box and capsule only the lower bound |f p| <= dist(p, surface point) (from 1-Lipschitz) and the sign/zero-set characterisation are theorems",
+        "exact distance: both directions (lower bound |f p| <= dist(p, s) for every surface point s, and a surface point at distance exactly |f p|) are proved for sphere, plane and box; for the capsule the lower bound, the sign/zero-set characterisation and f = dist(p, segment) - r (closestPoint_minimises) are theorems, the explicit surface witness is not",
         "rounded box / rounded cylinder with rounding > 0: negative exactly where the un-rounded core field is below the rounding radius (theorem); that this sub-level set is the Minkowski sum of the core with a ball is not proved",
         "subtract: f<0 iff base<0 and 0<sub (strictly outside the subtracted shape): on the subtracted shape's surface f=0, so 'difference of interiors' is read as interior(A) minus closure(B)",
         "capsule with start = end is excluded (guard a ≠ b; the property quantifies over sizes > 0); in float64 the Go code returns NaN there",
@@ -35,7 +35,7 @@ CFG = dict(
     ],
     assumptions=["float64 arithmetic in Go on amd64 is IEEE-754 without FMA contraction"],
     manifest=dict(
-        text="PARTIAL (6 of 7 primitive shapes; rounded cone is oracle-only). Lean 4 theorems over ℝ about the SDF closures regenerated from math/sdf/*.go and line3D.go on every run: sign and zero set: geometric characterisation for sphere, plane, box, capsule and the un-rounded cylinder (rounded box / rounded cylinder: negative exactly where the 1-Lipschitz core field is below the rounding radius); 1-Lipschitz bound for all of these (|f p − f q| ≤ |p − q|, proved through Mathlib's Euclidean space; box/rounded box/rounded cylinder via a 1-Lipschitz signed distance to the orthant with an intermediate-value argument; capsule via the minimising property of the clamped projection), exact distance (sphere, plane: both directions; box, capsule: lower bound), union/intersection/subtraction sign laws and Lipschitz closure for any number of operands, translation. Regenerated definitions run at Float and compared bit-for-bit with the Go closures; reference-distance oracles on the Go outputs.",
+        text="PARTIAL (6 of 7 primitive shapes; rounded cone is oracle-only). Lean 4 theorems over ℝ about the SDF closures regenerated from math/sdf/*.go and line3D.go on every run: sign and zero set: geometric characterisation for sphere, plane, box, capsule and the un-rounded cylinder (rounded box / rounded cylinder: negative exactly where the 1-Lipschitz core field is below the rounding radius); 1-Lipschitz bound for all of these (|f p − f q| ≤ |p − q|, proved through Mathlib's Euclidean space; box/rounded box/rounded cylinder via a 1-Lipschitz signed distance to the orthant with an intermediate-value argument; capsule via the minimising property of the clamped projection), exact distance (sphere, plane, box: both directions; capsule: f = distance to the segment minus r, and the lower bound), union/intersection/subtraction sign laws and Lipschitz closure for any number of operands, translation. Regenerated definitions run at Float and compared bit-for-bit with the Go closures; reference-distance oracles on the Go outputs.",
         note="Trusted: Lean kernel; propext/Classical.choice/Quot.sound; translator and vector table; hand model of Union/Intersect (corresponded); harness; reference SDFs in the driver. Not proved: rounded cone sign/Lipschitz (oracle only); 'attained' direction of exact distance for box/capsule; IEEE rounding.",
         technique="Lean 4 proof over a model regenerated from source (translator) + Float bit-exact correspondence"),
 )
